@@ -44,8 +44,21 @@ ALIAS_WIRE_NAMES = []  # filled below, after fields_of is defined
 EXCLUDED = sorted(set(ALL_MODELS) - set(MODELS))
 
 
+_FIELDS_CACHE = {}
+
+
 def fields_of(cls):
-    """[(python name, wire name, annotation, required, default or MISSING)] - backend independent"""
+    """[(python name, wire name, annotation, required, default or MISSING)] - backend independent.
+    Introspection (get_type_hints) is cached per class: under the engine's tracing it costs seconds, and the count
+    family calls this once per list item.  Mutable defaults are copied on every call."""
+    import copy as _copy
+
+    if cls not in _FIELDS_CACHE:
+        _FIELDS_CACHE[cls] = _fields_of_uncached(cls)
+    return [(n, w, a, r, (d if (d is MISSING or d is None or isinstance(d, (str, int, float, bool))) else _copy.deepcopy(d))) for n, w, a, r, d in _FIELDS_CACHE[cls]]
+
+
+def _fields_of_uncached(cls):
     try:
         hints = typing.get_type_hints(cls)
     except Exception:
@@ -113,6 +126,8 @@ class Slot:
 
 # spec-valid leaves for fields with a documented invariant: (class name, field) -> required prefix
 FIELD_PREFIX = {("Root", "uri"): "file:///"}
+# documented upper bounds of list members (MCP: completion values - at most 100 items)
+LIST_MAX = {("CompletionResult", "values"): 100, ("Completion", "values"): 100}
 
 
 class ShapeBuilder:
@@ -120,6 +135,8 @@ class ShapeBuilder:
         self.variant = variant
         self.counts = {"s": 0, "i": 0, "b": 0}
         self.types = []  # (path, expected class name) for model-typed positions
+        self.in_list = False
+        self.cur_field = None
 
     def slot(self, kind):
         n = self.counts[kind]
@@ -150,6 +167,18 @@ class ShapeBuilder:
         if o in (list, List):
             (it,) = get_args(t) or (Any,)
             n = 1 if self.variant in ("full", "req") else (0 if self.variant == "empty" else 2)
+            if self.variant.startswith("list"):
+                # count dimension: the OUTERMOST list of the model has the requested length, inner ones one item
+                n = int(self.variant[4:]) if not self.in_list else 1
+                cap = LIST_MAX.get(self.cur_field)
+                if cap is not None and n > cap:
+                    n = cap  # documented bound of this member: longer lists are not spec-valid traffic
+                was = self.in_list
+                self.in_list = True
+                try:
+                    return [self.value(it, path + "[%d]" % k, depth + 1, choice + (k % 7)) for k in range(n)]
+                finally:
+                    self.in_list = was
             return [self.value(it, path + "[%d]" % k, depth + 1, choice + k) for k in range(n)]
         if o in (dict, Dict):
             args = get_args(t)
@@ -169,6 +198,7 @@ class ShapeBuilder:
                 continue
             if not required and self.variant.startswith("only:") and depth == 0 and self.variant[5:] != name:
                 continue
+            self.cur_field = (cls.__name__, name)
             v = self.value(ann, (path + "." if path else "") + wname, depth, choice)
             if isinstance(v, Slot) and (cls.__name__, name) in FIELD_PREFIX:
                 v.prefix = FIELD_PREFIX[(cls.__name__, name)]
@@ -557,3 +587,42 @@ def witness_outcomes(tier):
 
 
 ALIAS_WIRE_NAMES[:] = _alias_wire_names()
+
+
+# ------------------------------------------------------------------ size / count dimension
+from harness import sizes as _sizes  # noqa: E402
+
+_sizes.size_cases(70000, extra=_sizes.ENV_SIZES)
+_sizes.size_cases(5000, extra=_sizes.ENV_SIZES)
+for _l in (32, 62, 110, 410):
+    _sizes.size_cases(_l)
+
+
+def has_list(key):
+    """does the model (or a model it contains at the top level) have a list member"""
+    cls, shape, counts, types = build(key, "full", 0)
+
+    def walk(x):
+        if isinstance(x, list):
+            return True
+        if isinstance(x, dict):
+            return any(walk(v) for v in x.values())
+        return False
+
+    return walk(shape)
+
+
+def lossless_big(key, k, mode, pat, lim):
+    """(0) every string leaf has c-1, c, c+1 characters; (1) the outermost lists have c-1, c, c+1 items"""
+    if mode == 0:
+        n = _sizes.pick(_sizes.size_cases(lim or 70000, extra=_sizes.ENV_SIZES), k)
+        return lossless(key, "req" if pat >= 10 else "full", 0, _sizes.long_text(n, pat % 10), "b", 7, True)
+    n = _sizes.pick(_sizes.size_cases(lim), k)
+    return lossless(key, "list%d" % n, 0, "a", "b", 7, True)
+
+
+for _c in list(ALL_MODELS.values()):
+    try:
+        fields_of(_c)  # warm the introspection cache at import time
+    except Exception:
+        pass
